@@ -97,7 +97,7 @@ def main():
         env = {"RV_REPO_SRC": os.path.join(patched, "src"), "RV_NO_EVIDENCE": "1", "RV_WITNESS_DIR": os.path.join(tmp, "witness"), "PYTHONDONTWRITEBYTECODE": "1"}
         report["checks"] = {}
         for p in props:
-            r = run([PY, "/verif/rv/check.py", p, "--tier", tier], "/verif", env, timeout=3600)
+            r = run([PY, os.environ.get("RV_CHECK", "/verif/rv/check.py"), p, "--tier", tier], os.path.dirname(os.path.dirname(os.environ.get("RV_CHECK", "/verif/rv/check.py"))), env, timeout=3600)
             lines = [l for l in r.stdout.splitlines() if l.startswith(("VIOLATION", "  key=", "INCONCLUSIVE", "["))]
             report["checks"][p] = {"rc": r.returncode, "lines": [l[:300] for l in lines[:8]]}
         print(json.dumps(report, indent=1))
